@@ -619,7 +619,13 @@ func nodeStream(name string, pl *plan, ch int, ts []triple) *Stream {
 		c.Data = data
 		if ch == chWorkflow && t.op == 0 && !pos.isKey && !s.big && len(b.kpos) > 0 {
 			if w := whichFor(pos.keyPath); w != "" {
-				c.K = &KInfo{Which: w, Path: pos.path}
+				kp := pos.path
+				if s.nullAlias {
+					// mutate() puts the anchored null pair in front of the root mapping
+					kp = append([]int{}, pos.path...)
+					kp[0] += 2
+				}
+				c.K = &KInfo{Which: w, Path: kp}
 			}
 		}
 		return c
